@@ -290,7 +290,24 @@ def check_tree(pairs, text: str, k: int, nonsilent: set, tags: set, start_silent
         d = pairs.dump()
         if _json.loads(pairs.dumps(compact=False)) != d:
             return "dumps(compact=False) disagrees with dump()"
-        pairs.dumps()
+        compact = pairs.dumps()
+        # the compact rendering must tell the same tree as dump(): every pair in pre-order with its tag and rule name, every
+        # leaf with its text (read back tolerantly: indentation and list markers are ignored)
+        leaf_texts = [_json.loads(m.group(1)) for m in re.finditer(r': ("(?:\\.|[^"\\])*")(?=\n| > |$)', compact)]
+        bare = re.sub(r': "(?:\\.|[^"\\])*"(?=\n| > |$)', "", compact)
+        heads = [h.strip().removeprefix("- ").strip() for line in bare.split("\n") for h in line.split(" > ") if h.strip()]
+        want_heads = [(f"{p.tag} " if p.tag else "") + p.name for p in flat]
+        if heads != want_heads:
+            return "dumps() (compact) does not show the same pairs / tags as dump()"
+        if leaf_texts != [p.text for p in flat if not p.children]:
+            return "dumps() (compact) does not show the same leaf texts as dump()"
+        def dump_heads(dd, acc):
+            for x in dd:
+                acc.append((x.get("node_tag"), x["rule"]))
+                dump_heads(x.get("inner", []), acc)
+            return acc
+        if dump_heads(d, []) != [(p.tag, p.name) for p in flat]:
+            return "dump() does not show the pairs / tags of the tree in pre-order"
         for p in flat:
             p.dumps()
             if p.dump()["span"] != {"str": p.text, "start": p.start, "end": p.end}:
@@ -471,6 +488,44 @@ def expr_to_ast(e):  # noqa: PLR0911, PLR0912
     raise P.Unsupported(t.__name__)
 
 
+def parameter_atoms(ast_rules: dict) -> collections.Counter:
+    """the nodes of a tuple AST that carry numbers or literal text, as a multiset: what a grammar text denotes whatever
+    parentheses the printer adds"""
+    c: collections.Counter = collections.Counter()
+
+    def walk(e):
+        if isinstance(e, tuple) and e:
+            k = e[0]
+            if k in ("str", "ci", "pushlit"):
+                c[(k, e[1])] += 1
+            elif k == "range":
+                c[(k, e[1], e[2])] += 1
+            elif k == "slice":
+                c[(k, e[1], e[2])] += 1
+            elif k in ("exact", "min", "max"):
+                c[(k, e[2])] += 1
+            elif k == "minmax":
+                c[(k, e[2], e[3])] += 1
+            elif k == "id":
+                c[(k, e[1], e[2] if len(e) > 2 else None)] += 1
+            elif k == "group":
+                c[("tag", e[2])] += 1 if e[2] else 0
+            elif k in ("peek", "pop", "drop", "peekall", "popall"):
+                c[(k,)] += 1
+            # structural nodes (seq, choice, opt, rep, predicates, push) are not counted: the front end flattens nested
+            # sequences and choices, so their number is not a function of the text alone
+            for x in e[1:]:
+                walk(x)
+        elif isinstance(e, list):
+            for x in e:
+                walk(x)
+
+    for n, (m, body) in ast_rules.items():
+        c[("rule", n, m)] += 1
+        walk(body)
+    return +c
+
+
 def rules_to_ast(rules: dict):
     out = {}
     for n, r in rules.items():
@@ -627,7 +682,19 @@ def eval_grammar(prop: str, rng: random.Random, gname: str, gtext: str, rules_as
             if p_.generate() != src:
                 out["direct"].append({**base, "what": "generate() twice yields different source", "mode": "gen"})
     out["stats"]["grammars"] += 1
-
+    if rules_ast is not None and not gname.startswith("bundled:"):
+        # the generator's own AST against the tree the front end built from the printed text: numbers and literal text
+        # (slice bounds, repetition bounds, literals, ranges, tags, modifiers) must be what the text says - the models start
+        # from the built tree, so a front-end slip (C10's subject) would otherwise be invisible to this property's oracle
+        try:
+            mine, built = parameter_atoms(rules_ast), parameter_atoms(rules_to_ast(md.p0.rules))
+            if mine != built:
+                diff = sorted(map(str, (mine - built) + (built - mine)))[:6]
+                out["direct"].append({**base, "what": "the front end built a tree whose numbers / literals differ from what the grammar text says",
+                                      "mode": "interp", "expected": "; ".join(map(str, sorted(map(str, mine - built))))[:400],
+                                      "observed": "; ".join(map(str, sorted(map(str, built - mine))))[:400], "differs": diff})
+        except P.Unsupported:
+            out["stats"]["front_crosscheck_skipped"] += 1
     for start, text, k in cases:
         out["stats"]["cases"] += 1
         case = {**base, "rule": start, "input": [ord(c) for c in text], "start_pos": k}
